@@ -1,5 +1,6 @@
 import FitProps.DecoderApiHistLemmas
 import FitProps.DecoderApiIndepLemmas
+import FitProps.DecoderApiDefaultLemmas
 import FitProps.DecoderApiTailLemmas
 /-!
 # C07 — A sequence decodes the same whatever the decoder did before
@@ -20,7 +21,7 @@ sequence depends on how the predecessor was consumed — the full statement `C07
 
 PROPERTY THEOREMS (audited by ./check): C07_decode_from_clean, C07_boundary_clean, C07_reset_is_new,
 C07_integrity_check_is_new, C07_history_indep_partial, C07_full_fails, C07_overrun_depends_on_op,
-C07_rejected_everywhere_partial, C07_decode_ignores_tail, C07_peek_transparent, C07_former_witnesses
+C07_rejected_everywhere_partial, C07_decode_ignores_tail, C07_peek_transparent, C07_former_witnesses, C07_default_config_partial
 -/
 namespace Fit.C07
 open Fit.DecApi
@@ -383,5 +384,31 @@ theorem C07_rejected_everywhere_partial (o : Opts) (bytes : List Nat) (ops : Lis
   have := hag _ hmem _ hspec
   rw [List.getElem?_eq_getElem hi']
   exact congrArg some this
+
+/-! ### the decoder's default configuration -/
+
+/-- **History independence of the decoder's DEFAULT configuration** — `decoder.New(r)`: the standard factory with component
+expansion ON (sub-fields, scales, offsets, accumulated components) — as `FitModel/DecoderApiDefault.lean` models it: the
+decoder-API model (C) with the regenerated standard factory and expansion off, every decoded message then expanded by C05's
+model of the tail of `decodeFields` over the REAL component / sub-field graph, the accumulator and the stored messages living
+for one sequence. For every byte stream, every option set (checksum, broadcast-only, listeners) and every history outside the
+class of KF-C07-4: every result of the decoder object — the FIT with every message and every EXPANDED field, headers, file
+ids, errors, and the listener calls with the expanded messages — is the same expansion applied to what the specification
+computes with new decoders. (What expansion adds is a function of the sequence's own messages: the expansion state is new
+after everything that ends a sequence. Termination of the expansion over the real graph: `C05_profile_depth`.) -/
+theorem C07_default_config_partial (o : Opts) (bytes : List Nat) (ops : List Op) (hb : Small bytes)
+    (hops : ∀ o' b, Op.reset o' b ∈ ops → Small b)
+    (hno : NoOverrun (Default.inner o) bytes (ops.map (Default.innerOp o))) :
+    ∀ y ∈ (Default.run o bytes ops).zip (Default.spec o bytes ops), ∀ r, y.2 = some r → y.1 = some r := by
+  have hops' : ∀ op ∈ ops.map (Default.innerOp o), OpSmall op := by
+    intro op hop
+    obtain ⟨op0, h0, rfl⟩ := List.mem_map.mp hop
+    cases op0 with
+    | reset o' b => exact ⟨hops o' b h0, Default.facOK_std⟩
+    | _ => trivial
+  exact Default.walk_agree o _ _ _ {} (C07_history_indep_partial (Default.inner o) bytes _ hb Default.facOK_std hops' hno)
+
+/-- non-vacuity: `P ++ S` under the default configuration, peeked, discarded, decoded -/
+example : NoOverrun (Default.inner {}) (P ++ S) ([Op.peekFileId, .discard, .decode].map (Default.innerOp {})) := by decide +kernel
 
 end Fit.C07
